@@ -19,7 +19,7 @@ Lemma add64c_step a c y :
   (fst (add64c a y c) + snd (add64c a y c)) mod 65535 = (a + c + y) mod 65535 /\
   (fst (add64c a y c) + snd (add64c a y c) = 0 <-> a + c + y = 0).
 Proof.
-  unfold CI, add64c, w64, M64. cbn [fst snd]. intros (Ha & Hc & Hr) Hy.
+  unfold CI, add64c. cbn [fst snd]. rewrite wrap64_w64, carry64_div. unfold w64, M64. intros (Ha & Hc & Hr) Hy.
   set (s := a + y + c).
   assert (Hs : s = a + y + c) by reflexivity. clearbody s.
   assert (Hq : s / 18446744073709551616 <= 1) by lia.
@@ -53,7 +53,7 @@ Proof.
   pose proof (chain_fold ws a 0 HC HF) as H. cbv zeta in H.
   destruct (fold_left (fun st w => add64c (fst st) w (snd st)) ws (a, 0)) as [a1 c1].
   cbn [fst snd] in *. destruct H as ((Ha1 & Hc1 & Hr1) & M1 & Z1).
-  unfold add64c. cbn [fst]. rewrite N.add_0_r.
+  unfold add64c. cbn [fst]. rewrite wrap64_w64, N.add_0_r.
   assert (Hlt : a1 + c1 < M64) by (unfold M64 in *; lia).
   unfold w64. fold M64. rewrite N.mod_small by exact Hlt.
   unfold Rax. split; [exact Hlt|]. split; [clear - M1 Hm Rm; lia|clear - Z1 Hz Rz; lia].
